@@ -1857,4 +1857,114 @@ theorem concatAnyChunks_total (cfg : Cfg) (xs : List XVal)
       · exact Or.inr h
       · simp only [List.length_cons] at h; omega
 
+/-! ### splitting one nested map value over two consecutive chunks -/
+
+theorem keysOf_dup (k : String) (l : List String) : keysOf (k :: k :: l) = keysOf (k :: l) := by
+  simp [keysOf, List.filter_filter]
+
+theorem keysOf_dup_mid (A B : List String) (k : String) : keysOf (A ++ k :: k :: B) = keysOf (A ++ k :: B) := by
+  rw [keysOf_append, keysOf_append, keysOf_dup]
+
+theorem asSc_map (ty e : String) (m : KVs) : asSc ty (.map e m) = .error .fail := rfl
+
+theorem mapM_asSc_split (ty e : String) (V V' : List XVal) (a b c : KVs) :
+    (V ++ .map e a :: V').mapM (asSc ty) = (V ++ .map e b :: .map e c :: V').mapM (asSc ty) := by
+  rw [mapM_append_except, mapM_append_except]
+  cases V.mapM (asSc ty) with
+  | error x => rfl
+  | ok ps => simp [List.mapM_cons, asSc_map, bind, Except.bind]
+
+theorem mapM_asMap_split (e' e : String) (V V' : List XVal) (a b : KVs) :
+    ((V ++ .map e (a ++ b) :: V').mapM (asMap e') = (V ++ .map e a :: .map e b :: V').mapM (asMap e') ∧ e ≠ e') ∨
+    (e = e' ∧ ∃ r : Except Err (List KVs × List KVs),
+      (V ++ .map e (a ++ b) :: V').mapM (asMap e') = r.map (fun p => p.1 ++ (a ++ b) :: p.2) ∧
+      (V ++ .map e a :: .map e b :: V').mapM (asMap e') = r.map (fun p => p.1 ++ a :: b :: p.2)) := by
+  by_cases he : e = e'
+  · right
+    refine ⟨he, ?_⟩
+    subst he
+    rw [mapM_append_except, mapM_append_except]
+    cases h1 : V.mapM (asMap e) with
+    | error x => exact ⟨.error x, rfl, rfl⟩
+    | ok m1 =>
+      cases h2 : V'.mapM (asMap e) with
+      | error x =>
+        exact ⟨.error x, by simp [List.mapM_cons, asMap, h2, bind, Except.bind, Except.map],
+          by simp [List.mapM_cons, asMap, h2, bind, Except.bind, Except.map]⟩
+      | ok m2 =>
+        exact ⟨.ok (m1, m2), by simp [List.mapM_cons, asMap, h2, bind, Except.bind, Except.map, pure, Except.pure],
+          by simp [List.mapM_cons, asMap, h2, bind, Except.bind, Except.map, pure, Except.pure]⟩
+  · left
+    refine ⟨?_, he⟩
+    rw [mapM_append_except, mapM_append_except]
+    cases V.mapM (asMap e') with
+    | error x => rfl
+    | ok ps => simp [List.mapM_cons, asMap, he, bind, Except.bind]
+
+theorem perKeyW_split (cfg : Cfg) (rec : String → List KVs → Except Err KVs)
+    (hrec : ∀ et ms ms', ms.flatten = ms'.flatten → rec et ms = rec et ms')
+    (W W' : List XVal) (e : String) (a b : KVs) :
+    perKeyW cfg rec (W ++ .map e (a ++ b) :: W') = perKeyW cfg rec (W ++ .map e a :: .map e b :: W') := by
+  cases W with
+  | nil =>
+    simp only [List.nil_append, perKeyW, List.mapM_cons, asMap, if_true, bind, Except.bind]
+    cases W'.mapM (asMap e) with
+    | error x => rfl
+    | ok ms =>
+      simp only [pure, Except.pure]
+      rw [hrec e ((a ++ b) :: ms) (a :: b :: ms) (by simp)]
+  | cons w W1 =>
+    cases w with
+    | nil => rfl
+    | sc ty v =>
+      simp only [List.cons_append, perKeyW]
+      rw [mapM_asSc_split ty e W1 W' (a ++ b) a b]
+    | map e' kvs =>
+      simp only [List.cons_append, perKeyW]
+      rcases mapM_asMap_split e' e W1 W' a b with ⟨h, _⟩ | ⟨he, r, h1, h2⟩
+      · rw [h]
+      · rw [h1, h2]
+        cases r with
+        | error x => rfl
+        | ok p =>
+          simp only [Except.map, bind, Except.bind]
+          rw [hrec e' (kvs :: (p.1 ++ (a ++ b) :: p.2)) (kvs :: (p.1 ++ a :: b :: p.2)) (by simp)]
+
+theorem perKey_split (cfg : Cfg) (rec : String → List KVs → Except Err KVs)
+    (hrec : ∀ et ms ms', ms.flatten = ms'.flatten → rec et ms = rec et ms')
+    (W W' : List XVal) (e : String) (a b : KVs) :
+    perKey cfg rec (W ++ .map e (a ++ b) :: W') = perKey cfg rec (W ++ .map e a :: .map e b :: W') := by
+  unfold perKey
+  rw [dropNil_append, dropNil_append, dropNil_cons_nonnil _ _ _ rfl, dropNil_cons_nonnil _ _ _ rfl,
+    dropNil_cons_nonnil _ _ _ rfl]
+  exact perKeyW_split cfg rec hrec _ _ e a b
+
+theorem vals_cons_ne (k k' : String) (v : XVal) (B : KVs) (h : k ≠ k') : vals ((k, v) :: B) k' = vals B k' := by
+  simp [vals, List.filter_cons, h]
+
+theorem vals_cons_eq (k : String) (v : XVal) (B : KVs) : vals ((k, v) :: B) k = v :: vals B k := by
+  simp [vals, List.filter_cons]
+
+/-- A nested map value (of any map type) of one chunk may be delivered in two consecutive
+    chunks instead, each holding part of its entries: `concatMaps` gives the same result. -/
+theorem concatEvs_split_nested (cfg : Cfg) (hs : cfg.Std) (n : Nat) (et : String) (A B : KVs) (k e : String) (a b : KVs) :
+    concatEvs cfg n et (A ++ (k, .map e (a ++ b)) :: B) = concatEvs cfg n et (A ++ (k, .map e a) :: (k, .map e b) :: B) := by
+  cases n with
+  | zero => rfl
+  | succ n =>
+    rw [concatEvs_succ cfg hs, concatEvs_succ cfg hs]
+    have hk : keysOf ((A ++ (k, XVal.map e a) :: (k, XVal.map e b) :: B).map (·.1)) =
+        keysOf ((A ++ (k, XVal.map e (a ++ b)) :: B).map (·.1)) := by
+      simp only [List.map_append, List.map_cons, keysOf_dup_mid]
+    rw [hk]
+    apply buildM_congr_eq
+    intro k' _
+    by_cases h : k = k'
+    · subst h
+      simp only [vals_append, vals_cons_eq]
+      apply perKey_split
+      intro et' ms ms' hfl
+      simp only [hfl]
+    · simp only [vals_append, vals_cons_ne _ _ _ _ h]
+
 end EinoV.C14
